@@ -70,11 +70,12 @@ def create_dir_if_not_exists(path):
         os.makedirs(path)
 
 
-def load_already_processed_files_in_directory(directory: Optional[str]) -> Set[str]:
+def load_already_processed_files_in_directory(directory: Optional[str], extension: Optional[str] = None) -> Set[str]:
     already_processed = set()
 
     if directory is not None:
-        file_pattern = r"(.+)(\.logits|\.xml|\.jpg)$"
+        # only the extension of the output that is written to this directory counts (several outputs may share a directory)
+        file_pattern = r"(.+)(\.logits|\.xml|\.jpg)$" if extension is None else r"(.+)(" + re.escape(extension) + r")$"
         regex = re.compile(file_pattern)
 
         for file in os.listdir(directory):
@@ -85,13 +86,13 @@ def load_already_processed_files_in_directory(directory: Optional[str]) -> Set[s
     return already_processed
 
 
-def load_already_processed_files(directories: List[Optional[str]]) -> Set[str]:
+def load_already_processed_files(directories: List[Optional[str]], extensions: Optional[List[str]] = None) -> Set[str]:
     already_processed = set()
     first = True
 
-    for directory in directories:
+    for i, directory in enumerate(directories):
         if directory is not None:
-            files = load_already_processed_files_in_directory(directory)
+            files = load_already_processed_files_in_directory(directory, None if extensions is None else extensions[i])
 
             if first:
                 already_processed = files
@@ -318,7 +319,7 @@ def main():
         # extension is found in all required output directories. If any of the output paths is set to 'None'
         # (i.e. the output is not required) than this directory is omitted.
         already_processed_files = load_already_processed_files([output_xml_path, output_logit_path, output_render_path,
-                                                                output_alto_path])
+                                                                output_alto_path], ['.xml', '.logits', '.jpg', '.xml'])
         if len(already_processed_files) > 0:
             logger.info(f"Already processed {len(already_processed_files)} file(s).")
 
